@@ -44,6 +44,8 @@ type Runner struct {
 	Shard    int
 	NShards  int
 	SkipTo   int // cases with index < SkipTo are not executed (crash resume)
+	MaxCases int // >0: stop executing after this many cases; the driver resumes in a fresh process
+	resumeAt int // first case index of this shard that was not executed because of MaxCases (-1: none)
 	Only     int // >=0: execute only this case index (replay)
 	OnlyName string
 	Replay   json.RawMessage // replay payload (case descriptor) if any
@@ -111,6 +113,8 @@ func Main(t *testing.T, gens map[string]func(*Runner)) {
 		NShards:  envInt("VERIF_NSHARDS", 1),
 		SkipTo:   envInt("VERIF_SKIPTO", 0),
 		Only:     envInt("VERIF_ONLY", -1),
+		MaxCases: envInt("VERIF_MAXCASES", 0),
+		resumeAt: -1,
 		counters: map[string]int64{},
 		nontriv:  map[uint64]struct{}{},
 		maxSamp:  6,
@@ -173,7 +177,7 @@ func (r *Runner) finish() {
 	executed := r.executed
 	r.mu.Unlock()
 	r.write(rec{"t": "done", "cases_total": total, "cases_executed": executed, "counters": cnt,
-		"nontrivial_keys": keys, "nontrivial_n": nn, "samples": samples,
+		"nontrivial_keys": keys, "nontrivial_n": nn, "samples": samples, "resume_at": r.resumeAt,
 		"wall_s": time.Since(r.start).Seconds()}, true)
 }
 
@@ -243,7 +247,16 @@ func (r *Runner) mine() (int, bool) {
 	if i < r.SkipTo {
 		return i, false
 	}
-	return i, i%r.NShards == r.Shard
+	if i%r.NShards != r.Shard {
+		return i, false
+	}
+	if r.MaxCases > 0 && r.executed >= r.MaxCases {
+		if r.resumeAt < 0 {
+			r.resumeAt = i
+		}
+		return i, false
+	}
+	return i, true
 }
 
 // Case runs fn as case `name` if it belongs to this shard. desc must be
@@ -418,7 +431,10 @@ func FirstFrame(stack string) (site string, inRepo bool) {
 // deterministic PRNG (SplitMix64), independent of math/rand versions
 
 // Rand is a small deterministic generator.
-type Rand struct{ s uint64 }
+type Rand struct {
+	mu sync.Mutex
+	s  uint64
+}
 
 // NewRand derives a generator from a seed and a list of labels.
 func NewRand(seed uint64, labels ...any) *Rand {
@@ -435,8 +451,10 @@ func NewRand(seed uint64, labels ...any) *Rand {
 
 // U64 returns the next value.
 func (r *Rand) U64() uint64 {
+	r.mu.Lock()
 	r.s += 0x9E3779B97F4A7C15
 	z := r.s
+	r.mu.Unlock()
 	z = (z ^ (z >> 30)) * 0xBF58476D1CE4E5B9
 	z = (z ^ (z >> 27)) * 0x94D049BB133111EB
 	return z ^ (z >> 31)
